@@ -77,6 +77,7 @@ def gen_spline(rng, S, tier, allow_per=True, nmax=None):
     else:
         xs = gen.axis_f(rng, n, rng.choice(["unit", "uniform", "random", "geometric", "evenish"]))
         flat = [rng.uniform(-4, 4) for _ in range(n * L)]
+    flat = gen.degenerate(rng, n, L, flat, 0.12)
     bc, lanes = rand_bc(rng, S, L, trailing, allow_per)
     if S == "F" and rng.random() < 0.15:
         # the same axis in a very small / very large unit (interval lengths 2^-470 .. 2^470): squares of interval lengths are
